@@ -37,20 +37,20 @@ def _exit_points(fn):
     return out
 
 
-def _restore_rule(chk, fn, rule, field, desc):
-    """may-dirty analysis on field `field` of PegState"""
+def _restore_rule(chk, fn, rule, field, desc, rec="PegState"):
+    """may-dirty analysis on field `field` of PegState (or of record `rec`)"""
     chk.rule(rule, desc)
     savers = set()
     for n in fn.nodes:
-        if n.k == "vardecl" and n.kids and is_mem(n.kids[0], field, "PegState"):
+        if n.k == "vardecl" and n.kids and is_mem(n.kids[0], field, rec):
             savers.add(n.name)
-        if n.k == "asg" and n.op == "=" and is_ref(n.kids[0]) and is_mem(n.kids[1], field, "PegState"):
+        if n.k == "asg" and n.op == "=" and is_ref(n.kids[0]) and is_mem(n.kids[1], field, rec):
             savers.add(n.kids[0].name)
-    stores = [n for n in fn.nodes if n.k == "asg" and is_mem(n.kids[0], field, "PegState")]
+    stores = [n for n in fn.nodes if n.k == "asg" and is_mem(n.kids[0], field, rec)]
     chk.instance(rule, len(stores))
 
     def transfer(st, n):
-        if n.k == "asg" and is_mem(n.kids[0], field, "PegState"):
+        if n.k == "asg" and is_mem(n.kids[0], field, rec):
             rhs = strip_casts(n.kids[1])
             if n.op == "=" and is_ref(rhs) and rhs.name in savers:
                 return frozenset()
@@ -455,6 +455,12 @@ def run(chk):
     _exhaustive_rule(chk, prog, tu, fn)
     _reset_rule(chk, prog, tu)
     _emits_rule(chk, prog, tu)
+    _accumfast_rule(chk, fn)
+    cfn = prog.need_func("peg_compile1", tu)
+    chk.analysed(cfn)
+    _restore_rule(chk, cfn, "C12-SCOPE", "grammar",
+                  "the grammar scope the PEG compiler switches to while resolving a rule is restored on every return of peg_compile1", rec="Builder")
+    chk.floor("C12-SCOPE", 2)
     chk.analysed(prog.need_func("peg_unmarshal", tu))
     chk.floor("C12-MODE", 10)
     chk.floor("C12-WINDOW", 6)
@@ -462,3 +468,38 @@ def run(chk):
     chk.floor("C12-BACKTRACK", 8)
     chk.floor("C12-BOUNDS", 4)
     chk.floor("C12-EXHAUSTIVE", 37)
+
+
+def _accumfast_rule(chk, fn):
+    """Inside (% ...) a capture is not pushed but its printed form is appended to the scratch buffer (pushcap).  Some
+    capture rules short-cut that by appending the matched text directly.  The short cut is only right when the capture IS
+    that text (a plain string capture): for any other capture value (a number) the printed form differs from the text, and
+    since the short cut is taken only when the grammar has no back-references, the result of an accumulation would depend
+    on an unrelated part of the grammar."""
+    rule = "C12-ACCUMFAST"
+    chk.rule(rule, "an accumulate-mode short cut that appends the matched text directly is used only where the capture value is that very text")
+    n = 0
+    for x in fn.nodes:
+        if x.k != "if" or len(x.kids) < 3 or x.kids[2] is None:
+            continue
+        cond = x.kids[0]
+        if not any(y.k == "mem" and y.field == "has_backref" for y in cond.walk()):
+            continue
+        fast = [c for c in x.kids[1].walk() if c.k == "call" and c.callee == "janet_buffer_push_bytes"]
+        slow = [c for c in x.kids[2].walk() if c.k == "call" and c.callee == "pushcap"]
+        if not fast or not slow:
+            continue
+        n += 1
+        chk.instance(rule)
+        val = strip_casts(slow[0].args[1])
+        inner = [c for c in val.walk() if c.k == "call" and c.callee in ("janet_string", "janet_stringv")]
+        same = bool(inner) and [a.text().replace(" ", "") for a in inner[0].args] == [a.text().replace(" ", "") for a in fast[0].args[1:]]
+        cases = enclosing_cases(x) or ["?"]
+        if same:
+            chk.ok(rule, "%s: the short cut appends exactly the string the general path captures" % cases[0])
+        else:
+            chk.violation(rule, "peg.c", "peg_rule", "%s:fastpath" % cases[0], x.loc,
+                          "in %s the general path captures `%s` but the accumulate short cut appends the raw matched text: inside (%% ...) the "
+                          "result is the text when the grammar has no back-reference anywhere and the value's printed form when it has" % (
+                              cases[0], val.text()[:40]))
+    chk.floor(rule, 1, n)
